@@ -104,17 +104,29 @@ class G:
     def default(self, computed=False):
         r = self.r
         x = r.random()
-        if x < .45:
+        if x < .42:
             return None
+        if x < .47:
+            return {"fetched": True}
         if x < .65:
             return {"str": self.text()}
-        if x < .9 or not computed:
+        if x < .85 or not computed:
             return {"text": r.choice(SQLS)}
-        return {"computed": r.choice(["a + 1", "n * 2"]), "persisted": r.choice([None, True, False])}
+        if x < .93:
+            return {"computed": r.choice(["a + 1", "n * 2"]), "persisted": r.choice([None, True, False])}
+        return {"identity": {"always": r.choice([True, False]), "on_null": r.choice([None, None, True]), "start": r.choice([None, 1, 3, -5]),
+                             "increment": r.choice([None, 2, -1]), "minvalue": r.choice([None, None, -10]),
+                             "maxvalue": r.choice([None, None, 1000]), "nominvalue": r.choice([None, None, True]),
+                             "nomaxvalue": r.choice([None, None, False]), "cycle": r.choice([None, True, False]),
+                             "cache": r.choice([None, 10]), "order": r.choice([None, True])}}
 
     def col(self, name=None, computed=False):
         r = self.r
-        return {"name": name or self.name(), "type": r.choice(TYPES), "default": self.default(computed),
+        d = self.default(computed)
+        if d and "identity" in d:       # SQLAlchemy: Identity needs an integer column and refuses autoincrement=False
+            return {"name": name or self.name(), "type": ("Integer", []), "default": d, "autoinc": r.choice([None, True]),
+                    "nullable": False, "system": False, "comment": self.text() if r.random() < .3 else None}
+        return {"name": name or self.name(), "type": r.choice(TYPES), "default": d,
                 "autoinc": r.choice([None, None, None, True, False]), "nullable": r.random() < .6, "system": r.random() < .05,
                 "comment": self.text() if r.random() < .3 else None}
 
@@ -194,8 +206,15 @@ class G:
                 # rendered code names the column by a string and gets the convention applied
                 # (finding C08-convention-applied-to-expression-only-index); every index gets a table column here
                 exprs.insert(0, {"col": self.name()})
+            kw = {}
+            if r.random() < .3:
+                kw["postgresql_using"] = r.choice(["gin", "btree", "it's"])
+            if r.random() < .3:
+                kw["postgresql_where"] = r.choice(["x > 0", "c = 'it''s'", "lower(name) <> ''"])
+            if r.random() < .2:
+                kw["postgresql_concurrently"] = r.choice([True, False])
             return {"k": kind, "name": self.cname() or {"plain": "ix_" + self.name()}, "exprs": exprs, "unique": r.choice([False, True]),
-                    "if_x": r.choice([None, None, True, False])}
+                    "if_x": r.choice([None, None, True, False]), "kw": kw}
         if kind == "create_unique":
             return {"k": kind, "cols": [self.name() for _ in range(r.randint(1, 2))], "name": self.cname(),
                     "deferrable": r.choice([None, None, True, False]), "initially": r.choice([None, None, "DEFERRED"])}
@@ -243,8 +262,11 @@ def gen_case(rnd, k):
         elif x < .8:
             ops.append({"k": "modify", "table": g.name(), "schema": g.oname(.4),
                         "ops": [g.tblop(rnd.choice(TBL_KINDS)) for _ in range(rnd.randint(0 if x < .36 else 1, 3))]})
-        else:
+        elif x < .93:
             ops.append({"k": "top", "table": g.name(), "schema": g.oname(.4), "op": g.tblop(rnd.choice(["create_index", "drop_index", "create_fk"]))})
+        else:
+            # ExecuteSQLOp (what a process_revision_directives hook adds); rendered with the configured prefix
+            ops.append({"k": "execute", "sql": rnd.choice(["select 1", "update t set c = 'it''s'", "-- comment\nvacuum", g.text()])})
     return {"stream": "A", "cfg": cfg, "nc": nc, "ops": ops}
 
 
@@ -342,6 +364,8 @@ def generate(tier, seed):
 
 
 def search(tier, seed):
+    # finding classes that are not registered yet stay here (the search stream) until they are
+    yield from finding_cases(set(FINDING_IDS) - registered())
     rnd = random.Random(seed * 104729 + 8)
     for k in range(3000):
         yield gen_case(rnd, k)
@@ -372,6 +396,10 @@ def _default(d):
         return d["str"]
     if "text" in d:
         return sa.text(d["text"])
+    if "fetched" in d:
+        return sa.FetchedValue()
+    if "identity" in d:
+        return sa.Identity(**{k: v for k, v in d["identity"].items() if v is not None or k == "always"})
     return sa.Computed(d["computed"], persisted=d["persisted"])
 
 
@@ -379,7 +407,7 @@ def _dclause(d):
     """server defaults as autogenerate hands them over: Column.server_default objects"""
     import sqlalchemy as sa
     x = _default(d)
-    return x if isinstance(x, sa.Computed) else sa.DefaultClause(x)
+    return x if isinstance(x, (sa.Computed, sa.Identity, sa.FetchedValue)) else sa.DefaultClause(x)
 
 
 def _col(c, q=None):
@@ -393,7 +421,7 @@ def _col(c, q=None):
         kw["comment"] = c["comment"]
     d = _default(c["default"])
     args = []
-    if isinstance(d, sa.Computed):
+    if isinstance(d, (sa.Computed, sa.Identity)):
         args.append(d)
     elif d is not None:
         kw["server_default"] = d
@@ -490,7 +518,11 @@ def _tblop(o, tname, schema, nc, q=None):
         t = _holder(tname, schema, nc, cols)
         exprs = [t.c[e["col"]] if "col" in e else sa.text(e["expr"]) if "expr" in e else
                  sa.literal_column(e["lit"]) if "lit" in e else sa.column(e["colclause"]) for e in o["exprs"]]
-        idx = sa.Index(_cn(o["name"]), *exprs, unique=o["unique"], _table=t) if not cols else sa.Index(_cn(o["name"]), *exprs, unique=o["unique"])
+        ikw = dict(o.get("kw", {}))
+        if "postgresql_where" in ikw:
+            ikw["postgresql_where"] = sa.text(ikw["postgresql_where"])
+        idx = sa.Index(_cn(o["name"]), *exprs, unique=o["unique"], _table=t, **ikw) if not cols else \
+            sa.Index(_cn(o["name"]), *exprs, unique=o["unique"], **ikw)
         if k == "create_index":
             op = ops.CreateIndexOp.from_index(idx)
             op.if_not_exists = o["if_x"]
@@ -536,6 +568,8 @@ def build_ops(h):
                                           schema=o["schema"]))
         elif o["k"] == "top":
             out.append(_tblop(o["op"], o["table"], o["schema"], h["nc"], q))
+        elif o["k"] == "execute":
+            out.append(ops.ExecuteSQLOp(o["sql"]))
         else:
             raise ValueError(o["k"])
     return out
@@ -617,7 +651,7 @@ def build_b(h):
 
 
 # ----------------------------------------------------------------------------- one case
-OPAQUE_IN = "(mkCfg [111;112] [115;97] false false, [TOp (mkId [] (Some true)) None (ODropTableComment None)])"   # outside inclass_C08
+OPAQUE_IN = "(mkCfg [111;112] [115;97] false false, [TOpaque])"   # outside the modelled universe: no model statement
 
 
 def run_case(h):
@@ -666,6 +700,7 @@ def run_case(h):
             kinds |= {x["k"] for x in o["ops"]} or {"empty_modify"}
         else:
             kinds.add(o["op"]["k"] if o["k"] == "top" else o["k"])
+        
     kinds = sorted(kinds)
     shape = "%s%s:%s" % ("batch" if cfg["batch"] else "plain", ["", "+nc", "+nc2"][int(h["nc"])], kinds[0] if len(kinds) == 1 else "mixed")
     return dict(cin=cin, cout=cout, out=out, nontrivial=bool(parsed) and captured is not None and len(captured) > 0, shape=shape)
